@@ -12,6 +12,7 @@ type JPEGSeg struct {
 	Marker  byte
 	Payload []byte
 	Tag     string
+	Fill    int // 0xFF fill bytes in front of the marker (T.81 B.1.1.2: any marker may be preceded by them)
 }
 
 type JPEGParams struct {
@@ -25,6 +26,7 @@ type JPEGParams struct {
 	NChunks     int
 	Damage      string
 	BodyLen     int64
+	SOSFill     int // fill bytes in front of the SOS marker
 }
 
 const jpegICCMax = 65533 - 14 // payload bytes of one APP2 ICC chunk
@@ -44,17 +46,17 @@ func drawOtherSeg(t *tape.Tape) JPEGSeg {
 	rnd := func(n int) []byte { b := make([]byte, n); r.Fill(b); return b }
 	switch t.Intn(10) {
 	case 0:
-		return JPEGSeg{0xE0, []byte("JFIF\x00\x01\x02\x00\x00\x01\x00\x01\x00\x00"), "APP0-JFIF"}
+		return JPEGSeg{0xE0, []byte("JFIF\x00\x01\x02\x00\x00\x01\x00\x01\x00\x00"), "APP0-JFIF", 0}
 	case 1:
-		return JPEGSeg{0xE1, append([]byte("Exif\x00\x00MM\x00\x2a\x00\x00\x00\x08\x00\x00"), rnd(r.Intn(300))...), "APP1-Exif"}
+		return JPEGSeg{0xE1, append([]byte("Exif\x00\x00MM\x00\x2a\x00\x00\x00\x08\x00\x00"), rnd(r.Intn(300))...), "APP1-Exif", 0}
 	case 2:
-		return JPEGSeg{0xFE, rnd(r.Intn(100)), "COM"}
+		return JPEGSeg{0xFE, rnd(r.Intn(100)), "COM", 0}
 	case 3:
 		// APP2 that is not an ICC chunk (e.g. FlashPix), sometimes shorter than the ICC identifier
 		if r.Intn(2) == 0 {
-			return JPEGSeg{0xE2, []byte("FPXR\x00"), "APP2-short"}
+			return JPEGSeg{0xE2, []byte("FPXR\x00"), "APP2-short", 0}
 		}
-		return JPEGSeg{0xE2, append([]byte("ICC_PROFILF\x00\x01\x01"), rnd(40)...), "APP2-notICC"}
+		return JPEGSeg{0xE2, append([]byte("ICC_PROFILF\x00\x01\x01"), rnd(40)...), "APP2-notICC", 0}
 	case 4:
 		m := byte(0xE3 + r.Intn(13))
 		n := r.Intn(200)
@@ -64,28 +66,28 @@ func drawOtherSeg(t *tape.Tape) JPEGSeg {
 		case 1:
 			n = 4090 + r.Intn(12)
 		}
-		return JPEGSeg{m, rnd(n), fmt.Sprintf("APP%d", m-0xE0)}
+		return JPEGSeg{m, rnd(n), fmt.Sprintf("APP%d", m-0xE0), 0}
 	case 5:
 		q := make([]byte, 65)
 		q[0] = byte(r.Intn(4))
 		for i := 1; i < 65; i++ {
 			q[i] = byte(1 + r.Intn(255))
 		}
-		return JPEGSeg{0xDB, q, "DQT"}
+		return JPEGSeg{0xDB, q, "DQT", 0}
 	case 6:
 		// minimal valid Huffman table: class/id, 16 counts, symbols
 		h := make([]byte, 17)
 		h[0] = byte(r.Intn(2)<<4 | r.Intn(2))
 		h[2] = 2
 		h = append(h, 0, 1)
-		return JPEGSeg{0xC4, h, "DHT"}
+		return JPEGSeg{0xC4, h, "DHT", 0}
 	case 7:
-		return JPEGSeg{0xDD, []byte{0, byte(r.Intn(256))}, "DRI"}
+		return JPEGSeg{0xDD, []byte{0, byte(r.Intn(256))}, "DRI", 0}
 	case 8:
-		return JPEGSeg{0xEE, []byte("Adobe\x00\x64\x00\x00\x00\x00\x01"), "APP14-Adobe"}
+		return JPEGSeg{0xEE, []byte("Adobe\x00\x64\x00\x00\x00\x00\x01"), "APP14-Adobe", 0}
 	default:
 		// payload containing marker-like bytes
-		return JPEGSeg{0xFE, []byte{0xFF, 0xD8, 0xFF, 0xC0, 0x00, 0x11, 0xFF, 0xDA, 0xFF, 0xD9}, "COM-markers"}
+		return JPEGSeg{0xFE, []byte{0xFF, 0xD8, 0xFF, 0xC0, 0x00, 0x11, 0xFF, 0xDA, 0xFF, 0xD9}, "COM-markers", 0}
 	}
 }
 
@@ -330,6 +332,23 @@ func DrawJPEG(t *tape.Tape, withICC int, iccSizes []int, allowDamage bool, perm 
 	case 2:
 		p.BodyLen = int64(4000 + t.Intn(6000))
 	}
+	// fill bytes: one file in six has 0xFF padding in front of some markers
+	// (legal in front of any marker; std image/jpeg skips them)
+	if t.Chance(1, 6) {
+		r := t.Sub()
+		for i := range p.Segs {
+			if r.Intn(3) == 0 {
+				p.Segs[i].Fill = 1 + r.Intn(3)
+				p.Segs[i].Tag = "fill+" + p.Segs[i].Tag
+			}
+		}
+		if r.Intn(3) == 0 {
+			p.SOSFill = 1 + r.Intn(3)
+		}
+		if r.Intn(8) == 0 {
+			p.Segs[r.Intn(len(p.Segs))].Fill = 5000 // longer than a bufio buffer
+		}
+	}
 	return p
 }
 
@@ -345,6 +364,9 @@ func BuildJPEG(p JPEGParams) *File {
 	prevNum := 0
 	for i, s := range p.Segs {
 		tag := fmt.Sprintf("seg%d.%s", i, s.Tag)
+		for k := 0; k < s.Fill; k++ {
+			w.u8(0xFF)
+		}
 		w.mark(tag+".marker", 2, "type")
 		w.u8(0xFF)
 		w.u8(s.Marker)
@@ -380,6 +402,9 @@ func BuildJPEG(p JPEGParams) *File {
 	}
 	tr.ICCChunks = iccSeen
 	// SOS header: Ns components, then Ss, Se, Ah/Al
+	for k := 0; k < p.SOSFill; k++ {
+		w.u8(0xFF)
+	}
 	w.mark("SOS.marker", 2, "type")
 	w.u8(0xFF)
 	w.u8(0xDA)
